@@ -53,6 +53,18 @@ func signumInt(i int64) int {
 	return 0
 }
 
+// cmpInt64 orders a and b without subtracting them: a-b overflows
+// when the operands are far apart, and then has the wrong sign.
+func cmpInt64(a, b int64) int {
+	if a < b {
+		return -1
+	}
+	if a > b {
+		return 1
+	}
+	return 0
+}
+
 func compareFloat(f *SexpFloat, expr Sexp) (int, error) {
 	switch e := expr.(type) {
 	case *SexpInt:
@@ -85,17 +97,20 @@ func compareFloat(f *SexpFloat, expr Sexp) (int, error) {
 func compareInt(i *SexpInt, expr Sexp) (int, error) {
 	switch e := expr.(type) {
 	case *SexpInt:
-		return signumInt(i.Val - e.Val), nil
+		return cmpInt64(i.Val, e.Val), nil
 	case *SexpFloat:
+		if math.IsNaN(e.Val) {
+			return 2, nil
+		}
 		return signumFloat(float64(i.Val) - e.Val), nil
 	case *SexpChar:
-		return signumInt(i.Val - int64(e.Val)), nil
+		return cmpInt64(i.Val, int64(e.Val)), nil
 	case *SexpReflect:
 		r := reflect.Value(e.Val)
 		ifa := r.Interface()
 		switch z := ifa.(type) {
 		case *int64:
-			return signumInt(i.Val - *z), nil
+			return cmpInt64(i.Val, *z), nil
 		}
 		P("compareInt(): ifa = %v/%T", ifa, ifa)
 		P("compareInt(): r.Elem() = %v/%T", r.Elem(), r.Elem())
@@ -110,8 +125,11 @@ func compareInt(i *SexpInt, expr Sexp) (int, error) {
 func compareChar(c *SexpChar, expr Sexp) (int, error) {
 	switch e := expr.(type) {
 	case *SexpInt:
-		return signumInt(int64(c.Val) - e.Val), nil
+		return cmpInt64(int64(c.Val), e.Val), nil
 	case *SexpFloat:
+		if math.IsNaN(e.Val) {
+			return 2, nil
+		}
 		return signumFloat(float64(c.Val) - e.Val), nil
 	case *SexpChar:
 		return signumInt(int64(c.Val) - int64(e.Val)), nil
@@ -312,18 +330,15 @@ func (env *Zlisp) Compare(a Sexp, b Sexp) (int, error) {
 func compareUint64(i *SexpUint64, expr Sexp) (int, error) {
 	switch e := expr.(type) {
 	case *SexpUint64:
-		return signumUint64(i.Val - e.Val), nil
+		// unsigned subtraction wraps around instead of going negative
+		if i.Val < e.Val {
+			return -1, nil
+		}
+		if i.Val > e.Val {
+			return 1, nil
+		}
+		return 0, nil
 	}
 	errmsg := fmt.Sprintf("err 101: cannot compare %T to %T", i, expr)
 	return 0, errors.New(errmsg)
-}
-
-func signumUint64(i uint64) int {
-	if i > 0 {
-		return 1
-	}
-	if i < 0 {
-		return -1
-	}
-	return 0
 }
